@@ -788,12 +788,13 @@ func (s *Store[K, V]) maintenance() {
 }
 
 func (s *Store[K, V]) Range(f func(key K, value V) bool) {
-	now := s.timerwheel.clock.NowNano()
 	for _, shard := range s.shards {
 		tk := shard.mu.RLock()
 		for _, entry := range shard.hashmap {
 			expire := entry.expire.Load()
-			if expire != 0 && expire <= now {
+			// read the clock per entry: the callbacks may take arbitrarily long,
+			// a time taken once at the start would hand out entries that expired meanwhile
+			if expire != 0 && expire <= s.timerwheel.clock.NowNano() {
 				continue
 			}
 			if !f(entry.key, entry.value) {
